@@ -9,6 +9,10 @@
 (*   "append"  .P += ["NEW"] / .P += {"nk": "NEW"}                         *)
 (*   "create"  .P.nk = "NEW"    (maps only)                                *)
 (*   "concat"  .P |= . + "s"    (string scalars only)                      *)
+(*   "delpast" del(.P[7])  "selpast" (.P | select(.[5] == "nope")) = "NEW" *)
+(*             updates that address nothing and only READ past the end     *)
+(*   "setroot" . = {"n": "NEW"}   "updroot" . |= {...}: the document       *)
+(*             header (leading comments, `---`) must survive               *)
 (* Apply(u, root, P) is the document afterwards; nodes the update creates  *)
 (* or rewrites carry the wildcard style "*" (their presentation is the     *)
 (* update's business).  The law of C07: the attribute table of `yq u` is   *)
@@ -49,6 +53,10 @@ Expr(u, root, p) == LET pe == "." \o PathExpr(root, p) IN
     [] u = "append" -> IF NodeAt(root, p).k = "seq" THEN pe \o " += [\"NEW\"]" ELSE pe \o " += {\"nk\": \"NEW\"}"
     [] u = "create" -> pe \o ".nk = \"NEW\""
     [] u = "concat" -> pe \o " |= . + \"s\""
+    [] u = "delpast" -> "del(" \o pe \o "[7])"                                              \* addresses nothing: reads past the end
+    [] u = "selpast" -> "(" \o pe \o " | select(.[5] == \"nope\")) = \"NEW\""               \* the condition reads past the end and is false
+    [] u = "setroot" -> ". = {\"n\": \"NEW\"}"
+    [] u = "updroot" -> ". |= {\"n\": \"NEW\"}"
     [] u = "copydel" -> ".backup = " \o pe \o " | del(.backup[0]) | del(" \o pe \o "[1])"
 
 \* keys on the way must be addressable by their text (an alias used as a key is not)
@@ -70,6 +78,8 @@ CanApply(u, root, p) ==
        [] u = "create" -> x.k = "map" /\ \A i \in DOMAIN x.es : x.es[i].key.val # "nk"
        [] u = "concat" -> x.k = "scalar" /\ x.tag = "" /\ x.st \in {"single", "double"}
        \* a history: copy a sequence, prune the copy, prune the original (the copy must not share anything with the original)
+       [] u \in {"delpast", "selpast"} -> x.k = "seq"
+       [] u \in {"setroot", "updroot"} -> p = <<1>> /\ root.k \in {"map", "seq"}          \* once per document (the target is the root itself)
        [] u = "copydel" -> x.k = "seq" /\ Len(x.es) >= 2 /\ root.k = "map" /\ (\A i \in DOMAIN root.es : root.es[i].key.val # "backup")
 Apply(u, root, p) ==
   LET x == NodeAt(root, p) IN
@@ -83,6 +93,8 @@ Apply(u, root, p) ==
                        ELSE PutAt(root, p, [x EXCEPT !.es = Append(@, [key |-> NewKey("nk"), v |-> New("NEW")]), !.st = IF x.es = <<>> THEN "*" ELSE @])
     [] u = "create" -> PutAt(root, p, [x EXCEPT !.es = Append(@, [key |-> NewKey("nk"), v |-> New("NEW")]), !.st = IF x.es = <<>> THEN "*" ELSE @])
     [] u = "concat" -> PutAt(root, p, [x EXCEPT !.val = "*", !.st = "*"])
+    [] u \in {"delpast", "selpast"} -> root                                             \* nothing is addressed: nothing changes
+    [] u \in {"setroot", "updroot"} -> NewMap(<<[key |-> NewKey("n"), v |-> New("NEW")]>>, root)
     [] u = "copydel" -> LET pruned == PutAt(root, p, [x EXCEPT !.es = DropAt(@, 2)]) IN
                         [pruned EXCEPT !.es = Append(@, [key |-> NewKey("backup"), v |-> Wild([x EXCEPT !.es = Tail(@)])])]
 \* comments that must survive: everything outside the target subtree
@@ -94,14 +106,16 @@ BlankAdjacent(n, p) == IF p = <<>> THEN n
                             IF Head(p) = 1 /\ IsBlockColl(n) THEN [c EXCEPT !.lc = ""] ELSE c
 RECURSIVE IsLastNode(_,_)
 IsLastNode(n, p) == p = <<>> \/ (Head(p) = Len(Children(n)) /\ IsLastNode(Children(n)[Head(p)], Tail(p)))
-FootOpen(u, root, p) == u = "copydel" \/ (u \notin {"append", "create"} /\ IsLastNode(root, p))
-Keep(u, root, p) == IF u = "copydel" THEN NodeComments(PutAt(root, p, [NodeAt(root, p) EXCEPT !.es = DropAt(@, 2), !.hc = "", !.lc = "", !.fc = ""]))
+FootOpen(u, root, p) == u \in {"copydel", "setroot", "updroot"} \/ (u \notin {"append", "create", "delpast", "selpast"} /\ IsLastNode(root, p))
+Keep(u, root, p) == IF u \in {"delpast", "selpast"} THEN NodeComments(root)
+                    ELSE IF u \in {"setroot", "updroot"} THEN <<>>                    \* the document's own header is added by the generator
+                    ELSE IF u = "copydel" THEN NodeComments(PutAt(root, p, [NodeAt(root, p) EXCEPT !.es = DropAt(@, 2), !.hc = "", !.lc = "", !.fc = ""]))
                     ELSE IF u \in {"append", "create"} THEN NodeComments(PutAt(root, p, [NodeAt(root, p) EXCEPT !.hc = "", !.lc = "", !.fc = ""]))   \* the target's own comments are open, its children's are not
                     ELSE NodeComments(BlankAdjacent(PutAt(root, p, Plain("x")), p))
-Updates == {"set", "setmap", "upd", "del", "append", "create", "concat", "copydel"}
+Updates == {"set", "setmap", "upd", "del", "append", "create", "concat", "copydel", "delpast", "selpast", "setroot", "updroot"}
 
 \* laws of the specification itself
-FrameLaw(u, root, p) == u = "copydel" \/          \* every value path that is not below, at or (for del in a sequence) after the target denotes the same node afterwards
+FrameLaw(u, root, p) == u \in {"copydel", "setroot", "updroot"} \/          \* every value path that is not below, at or (for del in a sequence) after the target denotes the same node afterwards
   LET after == Apply(u, root, p) IN
   \A q \in PathsOf(root, <<>>) :
      (Len(q) < Len(p) \/ SubSeq(q, 1, Len(p) - 1) # SubSeq(p, 1, Len(p) - 1) \/ q[Len(p)] < p[Len(p)]) /\ ~IsPrefix(q, p)
